@@ -20,7 +20,7 @@ for p in sorted(glob.glob(os.path.join(VERIF, "mutants", pid, "*.patch"))):
         print("%-40s SKIP (patch does not apply)" % n)
         continue
     try:
-        c = subprocess.run([os.path.join(VERIF, "check"), pid], capture_output=True, text=True, cwd=VERIF)
+        c = subprocess.run([os.path.join(VERIF, "check"), pid], capture_output=True, text=True, cwd=VERIF, env=dict(os.environ, VERIF_NO_EVIDENCE="1"))
     finally:
         subprocess.run(["git", "-C", "/repo", "checkout", "--", "."], check=True)
     rules = re.findall(r"rule=(\S+) instance=(\S+)", c.stdout)
